@@ -127,6 +127,37 @@ def gen(ctx):
     return dict(file=GEN_REL, symbols=len(syms), changed=(old != txt), missing_anchors=missing)
 
 
+SPEC = dict(
+    prop="C46",
+    proof_module="SimbodyProofs.C46",
+    sources=["SimbodyModel/Proto.lean", "SimbodyModel/C46.lean", "SimbodyModel/Gen/Statics.lean", "SimbodyProofs/C46.lean",
+             "Drivers/C46.lean"],
+    lake_targets=["SimbodyModel.Gen.Statics"],
+    gen=gen,
+    flow="harness_first",
+    # --n = number of repeat scenarios = number of interleave scenarios; fork scenarios = n/4 + 2
+    n=dict(quick=40, thorough=1500),
+    rtol=0.0, atol=0.0,
+    rule="scenario kinds: repeat (same simulation twice in one process with nothing / unrelated simulations / geometry, un-seeded "
+         "Random, optimizer, XML, root finder, graph maker in between), interleave (three live simulations advanced report by report "
+         "in a random schedule vs each one alone), fork (fresh process: simulation first vs after unrelated work); 5 models (pendulum, "
+         "free tree with springs, rod-constrained loop, compliant contact with ContactTrackerSubsystem, HuntCrossleyForce on "
+         "GeneralContactSubsystem) x 8 integrators (RKMerson, RKFeldberg, RK3, RK2, Verlet, ExplicitEuler, CPodes, SemiExplicitEuler2), "
+         "force evaluation single-threaded; every report-time state compared bit for bit; quick covers all 40 model x integrator pairs "
+         "in the repeat scenarios; distinct = distinct scenario records",
+    partial="the classification of the mutable statics (allowlist in SimbodyProofs/C46.lean) is a hand review of the source, not derived; "
+            "the theorem only proves that every writable static-storage object of the rebuilt binaries HAS a reviewed class and that the "
+            "class assumptions imply isolation in the process model; heap-level aliasing between instances, libm/BLAS determinism and the "
+            "OS are outside the model and are covered only by the bitwise trajectory comparison",
+    assumptions=[
+        "force evaluation single-threaded (GeneralForceSubsystem::setNumberOfThreads(1)); OpenBLAS/LAPACK and libm are deterministic for equal inputs",
+        "the translator (readelf/c++filt, checks/C46.py) lists every OBJECT/TLS symbol in .data/.bss/.tdata/.tbss of the three libraries; "
+        "template arguments are collapsed, so all instances of one templated static share one review entry",
+        "un-seeded Random generators are excluded from the property (seedCounter class); ContactId numbers (idCounter) may differ between "
+        "repetitions and are not compared, only trajectories are",
+    ],
+)
+
 if __name__ == "__main__":
     import sys
     sys.path.insert(0, os.path.dirname(os.path.dirname(os.path.abspath(__file__))))
